@@ -1031,6 +1031,33 @@ class DFA:
                 start.transition(DFTransition([DFTransition.Else]).to(passed_through).fallthrough().attach(*entry_chain_actions))
             self.mark_accepting(passed_through)
 
+    def append_after_running(self, actions: List["Action"], chained_dfa: "DFA"):
+        """
+        Append chained_dfa after our accept states, running `actions` in between.
+
+        Normally the actions wait for the first character of the chained DFA. Actions which can leave (a conditional break
+        or finish) cannot wait for it: the character may not be meant for the chained DFA at all. They run on a fallthrough of their own.
+        """
+        if not any(x.get_target_override_mode() != ActionOverrideMode.NONE for x in actions):
+            self.append_after(chained_dfa, chain_actions=actions)
+            return
+
+        relay = DFA()
+        relay_start = DFState()
+        relay_end = DFState()
+        relay.add(relay_start)
+        relay.add(relay_end)
+        relay.mark_accepting(relay_end)
+        # (marked as error handling while joining so that it only fills in for what our accept states do not continue with themselves)
+        relay_start.transition(DFTransition([DFTransition.Else], fallthrough=True).to(relay_end).attach(*actions).handles_else())
+        joined_states = list(self.accepting_states)
+        self.append_after(relay)
+        for state in joined_states:
+            for trans in state.transitions:
+                if trans.target is relay_end:
+                    trans.handles_else(False)
+        self.append_after(chained_dfa)
+
     def chain_actions_into(self, actions: Iterable["Action"], target_states: Iterable[DFState]):
         """
         Attempt to chain the given actions on all transitions pointing into the passed states.
@@ -3954,7 +3981,7 @@ class OptionalNode(ActionSinkNode):
 
         # If we need to, add a boring after thing
         if self.next is not None:
-            sub_dfa.append_after(self.next.convert(current_error_handlers), chain_actions=self.finish_actions)
+            sub_dfa.append_after_running(self.finish_actions, self.next.convert(current_error_handlers))
         else:
             sub_dfa.chain_actions_at_end(self.finish_actions)
 
@@ -4140,7 +4167,7 @@ class TryExceptNode(ActionSinkNode, ActionSourceNode):
 
         # If there is a next node, append it
         if self.next is not None:
-            sub_dfa.append_after(self.next.convert(current_error_handlers), chain_actions=self.after_actions)
+            sub_dfa.append_after_running(self.after_actions, self.next.convert(current_error_handlers))
         else:
             sub_dfa.chain_actions_at_end(self.after_actions)
 
@@ -4191,7 +4218,7 @@ class ForeachNode(ActionSinkNode, ActionSourceNode):
                 transition.attach(*self.each_actions, prepend=True)
 
         if self.next is not None:
-            sub_dfa.append_after(self.next.convert(current_error_handlers), chain_actions=self.after_actions)
+            sub_dfa.append_after_running(self.after_actions, self.next.convert(current_error_handlers))
         else:
             sub_dfa.chain_actions_at_end(self.after_actions)
 
@@ -4270,7 +4297,7 @@ class IfElseNode(ActionSinkNode, ActionSourceNode):
                 cond_point.transition(DFConditionalTransition(x).attach(*self.branch_actions[x]).to(dummy_target))
 
         if self.next is not None:
-            dfa.append_after(self.next.convert(current_error_handlers), chain_actions=self.after_actions)
+            dfa.append_after_running(self.after_actions, self.next.convert(current_error_handlers))
         else:
             dfa.chain_actions_at_end(self.after_actions)
         return dfa
